@@ -21,6 +21,7 @@ STATE_DEFAULT = 7       # METHOD_HEAD | METHOD_GET | METHOD_POST
 
 LOG = []                # what the callables of the pool saw, in order
 FIRE = []               # exception classes to be raised by the next handler
+FIRE_EH = []            # ... by the next exception handler that is called
 
 
 def make_handler(i):
@@ -28,6 +29,8 @@ def make_handler(i):
         LOG.append(("h", i))
         if FIRE and not (args and isinstance(args[0], BaseException)):
             raise FIRE.pop()("fired")
+        if FIRE_EH and args and isinstance(args[0], BaseException):
+            raise FIRE_EH.pop()("fired")
         return "h%d" % i
     handler.__name__ = "h%d" % i
     return handler
@@ -400,7 +403,14 @@ class Ref:
         if handler is not None:
             log.append(("h", handler))
             status = 200
-            if isinstance(fire, tuple):
+            if isinstance(fire, tuple) and fire[0] == "exc-abort":
+                eh = self.map.get(("error", fire[1], bit))
+                if eh is not None:
+                    log.append(("h", eh))
+                    status = fire[2]
+                else:
+                    status = 500
+            elif isinstance(fire, tuple):
                 status = fire[1]
             elif fire is not None:
                 eh = self.map.get(("error", fire, bit))
@@ -656,7 +666,8 @@ class Runner:
                 hit = ref.reachable(bit)
                 if hit is None:
                     continue
-                for exc in (0, 1, 3, ("abort", 418), ("abort", 204)):
+                for exc in (0, 1, 3, ("abort", 418), ("abort", 204),
+                            ("exc-abort", 0, 404), ("exc-abort", 1, 418)):
                     plan.append((name, bit, hit[0], hit[1], exc))
         for name, bit, path, target, exc in plan:
             want = ref.expect(bit, target, exc)
@@ -665,7 +676,14 @@ class Runner:
                 continue
             del LOG[:]
             del FIRE[:]
-            if isinstance(exc, tuple):
+            del FIRE_EH[:]
+            if isinstance(exc, tuple) and exc[0] == "exc-abort":
+                # the endpoint fails, and the exception handler (if one is
+                # registered) aborts with a status in its turn
+                from poorwsgi.response import HTTPException
+                FIRE.append(EXCS[exc[1]])
+                FIRE_EH.append(lambda msg, code=exc[2]: HTTPException(code))
+            elif isinstance(exc, tuple):
                 # the handler aborts with a status: the handler registered
                 # for (status, method) answers, whatever the status is
                 from poorwsgi.response import HTTPException
@@ -675,13 +693,17 @@ class Runner:
             ans = call(app, environ(name, path))
             got = (list(LOG), ans.code)
             del FIRE[:]
+            del FIRE_EH[:]
             self.probes += 1
             if ans.raised is not None or got != (want[0], want[1]):
                 self.ctx.violation("dispatch-differs-from-reference", {
                     "calls": [list(o) for o in ops[:i + 1]],
                     "request": [name, path],
                     "fired": None if exc is None else
-                    "abort(%d)" % exc[1] if isinstance(exc, tuple)
+                    "%s, then its handler aborts with %d" % (
+                        EXCS[exc[1]].__name__, exc[2])
+                    if isinstance(exc, tuple) and exc[0] == "exc-abort"
+                    else "abort(%d)" % exc[1] if isinstance(exc, tuple)
                     else EXCS[exc].__name__,
                     "answered_by": repr(got), "reference": repr(want),
                     "raised": repr(ans.raised)})
